@@ -77,6 +77,14 @@ def match_spans(results):
     return out
 
 
+def match_ids(results):
+    """per match (in order): the sorted list of canonical ids"""
+    out = []
+    for r in results:
+        out.append(sorted(list(r.canonical_values)))
+    return out
+
+
 def digits_text(vals):
     out = ''
     for v in vals:
@@ -185,7 +193,7 @@ def literal_value(groups, frac, negative):
             whole = whole * 10 + v
     val = whole
     if len(frac) > 0:
-        val = whole + digits_value(frac) / (10 ** len(frac))
+        val = whole + exact_div(digits_value(frac), 10 ** len(frac))
     return -val if negative else val
 
 
